@@ -5,6 +5,14 @@
 // compares bytes and error/no-error.  Gate (mode "gate") feeds the single
 // directive cases to the C library through cgate.c and compares THE
 // SPECIFICATION's prediction with it: a sanity check of the model, not a verdict.
+//
+// The KIND of an argument is part of a case: "num" and "str" are rendered as
+// constants, "null" as an unset variable, "strnum" (text from input) is really
+// read from input, once in every provenance (getline variable, field,
+// split() element, Config.Vars variable): see kinds.go.  Families "q" (several
+// calls in one interpreter), "p" (print lines in the default, CSV and TSV
+// output modes under OFMT / CONVFMT texts) and "v" (%s of a number under a
+// CONVFMT text) are replayed there as well.
 package c09
 
 import (
@@ -19,7 +27,6 @@ import (
 	"os/exec"
 	"strings"
 
-	"github.com/benhoyt/goawk/interp"
 	"github.com/benhoyt/goawk/verifharness/c05"
 	"github.com/benhoyt/goawk/verifharness/hx"
 )
@@ -41,12 +48,26 @@ type Case struct {
 	Cs    hx.BS      `json:"cs"`
 	Err   bool       `json:"err"`
 	Out   hx.BS      `json:"out"`
-	// fam q: a sequence of calls in one interpreter (from a rejected recorded trace)
+	// fam k (and d): is the argument a number for %c ("yes" / "no" / "open"); the results of the other
+	// dialects when the argument is an open form (hex, inf/nan, NBSP blanks)
+	Isnum string `json:"isnum"`
+	Alts  []Alt  `json:"alts"`
+	// fam q: a sequence of calls in one interpreter (exported by Gen_Printf, or from a rejected recorded trace)
 	Calls []Case `json:"calls"`
-	// fam o
+	// fam p (print line) and v (%s under CONVFMT)
 	N        c05.NumJ `json:"n"`
 	Of       hx.BS    `json:"of"`
-	Integral bool     `json:"integral"`
+	Cf       hx.BS    `json:"cf"`
+	Mode     string   `json:"mode"`
+	Ofs      hx.BS    `json:"ofs"`
+	Fraction bool     `json:"fraction"`
+	Defprec  bool     `json:"defprec"`
+}
+
+// Alt is the result of a format under another dialect of the value model.
+type Alt struct {
+	Err bool  `json:"err"`
+	Out hx.BS `json:"out"`
 }
 
 func argExpr(v *c05.ValJ) string {
@@ -57,16 +78,6 @@ func argExpr(v *c05.ValJ) string {
 		return hx.AwkString(v.S.Bytes())
 	}
 	return "un"
-}
-
-func program(c *Case) string {
-	f := hx.AwkString(c.Fmt.Bytes())
-	var args strings.Builder
-	for i := range c.Args {
-		args.WriteString(", ")
-		args.WriteString(argExpr(&c.Args[i]))
-	}
-	return fmt.Sprintf("BEGIN {\n  printf %s%s\n  printf \"\\001\"\n  x = sprintf(%s%s)\n  printf \"%%s\", x\n}\n", f, args.String(), f, args.String())
 }
 
 func verbClass(v int) string {
@@ -104,6 +115,12 @@ func isMultibyte(b []byte) bool {
 
 func argClass(c *Case) string {
 	a := &c.Args[len(c.Args)-1]
+	if a.Tag == "strnum" {
+		return inputClass(c, a)
+	}
+	if a.Tag == "null" {
+		return "uninitialised"
+	}
 	if a.Tag == "str" {
 		switch {
 		case len(a.S) == 0:
@@ -177,6 +194,10 @@ func feature(c *Case) string {
 	case isInt && prec == 0 && len(c.Cn.D) == 0 && c.Cn.T == "fin":
 		return "zero-precision-zero-value"
 	}
+	if a := &c.Args[len(c.Args)-1]; a.Tag == "strnum" || a.Tag == "null" {
+		// the kind of the argument is what the case is about
+		return "input-arg/" + argClass(c)
+	}
 	return "output/" + argClass(c)
 }
 
@@ -191,74 +212,6 @@ func fmtKind(f []byte) string {
 	return "args"
 }
 
-func run(c *Case) (*hx.RunResult, string) {
-	prog := program(c)
-	cfg := &interp.Config{Chars: c.Chars}
-	return hx.RunAwk(prog, nil, cfg, nil), prog
-}
-
-func replayFmt(c *Case) hx.Outcome {
-	res, prog := run(c)
-	who := "multi"
-	feat := "output"
-	if c.Fam == "d" {
-		who = verbClass(c.Verb)
-		feat = feature(c)
-	}
-	if res.Panic != nil {
-		return hx.Fail("C09/"+who+"/panic", fmt.Sprintf("panic: %v", res.Panic), nil, res.PanicStk, prog)
-	}
-	if res.ParseErr != nil {
-		return hx.Outcome{Skipped: true, Note: "program rejected: " + res.ParseErr.Error()}
-	}
-	if c.Err != (res.Err != nil) {
-		return hx.Fail(fmt.Sprintf("C09/%s/error-outcome/%s", who, fmtKind(c.Fmt.Bytes())),
-			fmt.Sprintf("format %q with %d argument(s): specification error=%v, real error=%v", c.Fmt.Bytes(), len(c.Args), c.Err, res.Err),
-			c.Err, fmt.Sprint(res.Err), prog)
-	}
-	if c.Err {
-		return hx.OK(true)
-	}
-	out := c.Out.Bytes()
-	want := append(append(append([]byte{}, out...), 1), out...)
-	if !bytes.Equal(res.Stdout, want) {
-		i := bytes.IndexByte(res.Stdout, 1)
-		what := "printf"
-		if i >= 0 && bytes.Equal(res.Stdout[:i], out) {
-			what = "sprintf"
-		}
-		mode := ""
-		if c.Chars {
-			mode = " (chars mode)"
-		}
-		return hx.Fail(fmt.Sprintf("C09/%s/%s", who, feat),
-			fmt.Sprintf("%s %q%s: output differs from C printf as specified", what, c.Fmt.Bytes(), mode),
-			string(out), string(res.Stdout), prog)
-	}
-	return hx.OK(c.Fam == "m" || len(c.Flags) > 0 || c.Wk != "none" || c.Pk != "none")
-}
-
-func replayPrint(c *Case) hx.Outcome {
-	out := string(c.Out.Bytes())
-	prog := fmt.Sprintf("BEGIN {\n  OFMT = %s; CONVFMT = \"%%.3e\"\n  x = %s\n  print x\n  print x, \"s\", x\n}\n", hx.AwkString(c.Of.Bytes()), c.N.Expr())
-	res := hx.RunAwk(prog, nil, nil, nil)
-	if res.Panic != nil {
-		return hx.Fail("C09/print/panic", fmt.Sprintf("panic: %v", res.Panic), nil, res.PanicStk, prog)
-	}
-	if res.ParseErr != nil {
-		return hx.Outcome{Skipped: true, Note: "program rejected"}
-	}
-	want := out + "\n" + out + " s " + out + "\n"
-	cls := "fraction"
-	if c.Integral {
-		cls = "integral"
-	}
-	if res.Err != nil || string(res.Stdout) != want {
-		return hx.Fail("C09/print/ofmt/"+cls, fmt.Sprintf("print %s with OFMT=%s", c.N.Expr(), c.Of.Bytes()), want, string(res.Stdout), prog)
-	}
-	return hx.OK(!c.Integral)
-}
-
 // Replay is the hx.Replayer for Gen_Printf exports.
 func Replay(raw json.RawMessage) hx.Outcome {
 	var c Case
@@ -266,15 +219,17 @@ func Replay(raw json.RawMessage) hx.Outcome {
 		return hx.Outcome{Skipped: true, Note: "bad case: " + err.Error()}
 	}
 	switch c.Fam {
-	case "d":
+	case "d", "k":
 		if len(c.Args) == 0 {
 			return hx.Outcome{Skipped: true, Note: "no arguments"}
 		}
 		return replayFmt(&c)
 	case "m":
 		return replayFmt(&c)
-	case "o":
+	case "p":
 		return replayPrint(&c)
+	case "v":
+		return replayConvfmt(&c)
 	case "q":
 		return replaySeq(&c)
 	}
@@ -307,7 +262,7 @@ func smallInt(n c05.NumJ) int {
 // gateLine renders a single-directive case as a cgate input line ("" if the
 // case is not one the C library can be asked about).
 func gateLine(c *Case) string {
-	if c.Fam != "d" || c.Err || len(c.Args) == 0 {
+	if (c.Fam != "d" && c.Fam != "k") || c.Err || len(c.Args) == 0 {
 		return ""
 	}
 	f := c.Fmt.Bytes()
@@ -352,7 +307,10 @@ func gateLine(c *Case) string {
 		typ, arg = 's', hexOrDash(c.Cs.Bytes())
 	case "c":
 		a := &c.Args[len(c.Args)-1]
-		if a.Tag == "num" {
+		if c.Isnum == "open" {
+			return ""
+		}
+		if a.Tag == "num" || c.Isnum == "yes" {
 			code := smallInt(c.Cn)
 			if code < 0 || code > 255 || (c.Chars && code > 127) {
 				return ""
@@ -483,47 +441,3 @@ func WriteCGate(args []string) int {
 	return 0
 }
 
-// replaySeq re-runs a recorded sequence of sprintf calls in ONE interpreter
-// and compares the result of every call (the last one is the call TLC rejected).
-func replaySeq(c *Case) hx.Outcome {
-	var sb strings.Builder
-	sb.WriteString("BEGIN {\n")
-	for i := range c.Calls {
-		cl := &c.Calls[i]
-		sb.WriteString("  printf \"%s\\001\", sprintf(" + hx.AwkString(cl.Fmt.Bytes()))
-		for j := range cl.Args {
-			sb.WriteString(", " + argExpr(&cl.Args[j]))
-		}
-		sb.WriteString(")\n")
-	}
-	sb.WriteString("}\n")
-	prog := sb.String()
-	res := hx.RunAwk(prog, nil, &interp.Config{Chars: c.Chars}, nil)
-	if res.Panic != nil {
-		return hx.Fail("C09/format-cache/panic", fmt.Sprintf("panic: %v", res.Panic), nil, res.PanicStk, prog)
-	}
-	if res.ParseErr != nil {
-		return hx.Outcome{Skipped: true, Note: "program rejected"}
-	}
-	outs := bytes.Split(res.Stdout, []byte{1})
-	outs = outs[:len(outs)-1]
-	for i := range c.Calls {
-		cl := &c.Calls[i]
-		if cl.Err {
-			if i < len(outs) || res.Err == nil {
-				return hx.Fail("C09/format-cache/sequence-dependent", fmt.Sprintf("call %d (%q) should fail", i+1, cl.Fmt.Bytes()), "error", string(res.Stdout), prog)
-			}
-			return hx.OK(true)
-		}
-		if i >= len(outs) || !bytes.Equal(outs[i], cl.Out.Bytes()) {
-			got := "(no output)"
-			if i < len(outs) {
-				got = string(outs[i])
-			}
-			return hx.Fail("C09/format-cache/sequence-dependent",
-				fmt.Sprintf("call %d of a sequence in one interpreter, sprintf(%q, ...): result differs from the specification although the same call alone agrees", i+1, cl.Fmt.Bytes()),
-				string(cl.Out.Bytes()), got, prog)
-		}
-	}
-	return hx.OK(true)
-}
